@@ -96,8 +96,8 @@ def mce(root):
     return root
 
 
-def validate_root(root):
-    """[] if the element tree (a whole part) is schema-valid, else up to 3 messages"""
+def validate_root(root, limit=3):
+    """[] if the element tree (a whole part) is schema-valid, else up to `limit` messages (None: all)"""
     from lxml import etree
 
     f = _NS2XSD.get(etree.QName(root).namespace)
@@ -107,7 +107,7 @@ def validate_root(root):
     r = mce(root)
     if s.validate(r):
         return []
-    return ["%s (line %s)" % (str(e.message)[:220], e.line) for e in s.error_log][:3]
+    return ["%s (line %s)" % (str(e.message)[:220], e.line) for e in s.error_log][:limit]
 
 
 def validate_package_bytes(data):
